@@ -92,7 +92,10 @@ static KEYWORDS: [&str; 64] = [
     "yield",
 ];
 pub(crate) fn ident(id: &str) -> RcDoc<'_> {
-    if KEYWORDS.contains(&id) {
+    // A reserved word followed by underscores is escaped as well, so that `class` and `class_` stay
+    // distinct. `IDL` is the parameter of the generated factory.
+    let stem = id.trim_end_matches('_');
+    if KEYWORDS.contains(&stem) || stem == "IDL" {
         str(id).append("_")
     } else {
         str(id)
